@@ -21,7 +21,7 @@ var properties = map[string]*propDef{
 		NotDecided:  "that the control flow of Degree.simpleSemitone implements the algorithm whose tables and tuples were extracted (the search loop itself is not proved); uint8 wrap-around outside the MIDI range (excluded by the property's premise); everything inside gomidi.",
 	},
 	"C02": {
-		Rules:     []string{"TICKS", "PENDING", "NOTE", "PLAYLOOP", "OPMAP", "TRACKADD"},
+		Rules:     []string{"TICKS", "PENDING", "NOTE", "PLAYLOOP", "OPMAP", "TRACKADD", "TRACKCOUNT"},
 		Technique: techPath + ": rounding idiom, pending-delta typestate of every emitter, on/off loop structure",
 		Explanation: "ticks = uint32(Round(quarterTicks x value)) by shape, quarterTicks and the header division both derived from the constructor's clock, the value is the sum over all duration fractions starting at 0; every emitting method consumes the pending delta exactly once before its first emission and gives later ops 0 or newTicks(value); Rest only accumulates; Close carries the pending rest; all note-ons of a chord precede all its note-offs, the first op of each phase carries the time; each op hands its own delta to gomidi; instances are visited in order.",
 		NotDecided:  "floating-point error of the sum of Num/Denom against exact rationals (needs values); absence of uint32 overflow (excluded below 2^28 by the quantifier); gomidi's delta encoding.",
